@@ -78,6 +78,31 @@ Theorem in_domainb_sound : forall st genby date, in_domainb st genby date = true
 Proof. exact Hdf5Proofs.in_domainb_sound. Qed.
 Print Assumptions in_domainb_sound.
 
+(* [history] write, load, write again, load: the table loaded from a written file (`reloaded`), held in
+   ANY well-formed layout that denotes the loaded matrix, with the bare-text group metadata a loaded
+   table carries, satisfies the hypotheses of the round trip again, and the second generation
+   equals the first: ids, matrix, metadata as dictionaries, type, id, generated-by, date, payloads *)
+Theorem second_generation : forall st genby date f0 r ax,
+  wf_state st -> meta_ok st -> text genby -> text date ->
+  wf_cs r -> matrix_of f0 r = st_mat st ->
+  length (st_oids st) = (match f0 with CSR => major r | CSC => minor r end) ->
+  length (st_sids st) = (match f0 with CSR => minor r | CSC => major r end) ->
+  let ld1 := reloaded st genby date in
+  let st2 := restate ld1 f0 r in
+  wf_state st2 /\ meta_ok st2
+  /\ to_hdf5_raw st2 (map (fun kv => (fst kv, GText (snd kv))) (l_ogmd ld1))
+                     (map (fun kv => (fst kv, GText (snd kv))) (l_sgmd ld1)) genby date
+     = to_hdf5 st2 genby date
+  /\ exists f ld2,
+       to_hdf5 st2 genby date = ROk f /\ from_hdf5 f ax = ROk ld2
+       /\ l_oids ld2 = l_oids ld1 /\ l_sids ld2 = l_sids ld1 /\ l_mat ld2 = l_mat ld1
+       /\ md_agree (l_omd ld2) (l_omd ld1) /\ md_agree (l_smd ld2) (l_smd ld1)
+       /\ l_type ld2 = l_type ld1 /\ l_id ld2 = l_id ld1
+       /\ l_genby ld2 = l_genby ld1 /\ l_date ld2 = l_date ld1
+       /\ l_ogmd ld2 = l_ogmd ld1 /\ l_sgmd ld2 = l_sgmd ld1.
+Proof. exact Hdf5Proofs.second_generation. Qed.
+Print Assumptions second_generation.
+
 (* [more] what the reader returns is determined: it is exactly `reloaded st genby date`,
    whichever matrix copy is read *)
 Theorem from_hdf5_written : forall st genby date ax,
